@@ -219,6 +219,7 @@ static int stressbuf(int nprod, long npush, int spinN, const char *tracePath)
     if (last) break;
     if (fin) last = true;             // one more round after all producers were seen finished
     if (spinN) spin(spinN * 4);
+    else if (b.empty()) std::this_thread::yield();   // let the producers in
   }
   for (auto &t : prods) t.join();
   stopSampler.store(true);
